@@ -1,6 +1,7 @@
 package checks
 
 import (
+	"fmt"
 	"go/ast"
 	"go/token"
 	"go/types"
@@ -304,4 +305,104 @@ func checkLazyInheritance(r *core.Result, prog *core.Program, lp *packages.Packa
 		r.Ob("R9", "(*DecodeResult).Close does nothing for a nested result (skipClose)", prog.Pos(f.Pos()), closeCall == nil || guarded,
 			"Close() releases the result although it is marked skipClose: a nested result closed by the caller goes back to the pool while its parent still lists it (the parent's close later resets and re-pools an object someone else owns)")
 	}
+}
+
+// checkFoundGuards (L-found, C13): the position returned by slices.BinarySearch is meaningful only when the search
+// reported a hit. Every use of such a position lies after `if !found { return/continue … }` in the same block chain
+// or inside `if found { … }`; otherwise a tag that was not requested is looked up at an insertion position (another
+// tag's data, or one past the end).
+func checkFoundGuards(r *core.Result, prog *core.Program, lp *packages.Package) int {
+	info := lp.TypesInfo
+	n := 0
+	for _, f := range core.Funcs(lp) {
+		if f.Decl == nil || f.Decl.Body == nil {
+			continue
+		}
+		parents := parentMap(f.Decl.Body)
+		ast.Inspect(f.Decl.Body, func(nn ast.Node) bool {
+			as, ok := nn.(*ast.AssignStmt)
+			if !ok || len(as.Lhs) != 2 || len(as.Rhs) != 1 {
+				return true
+			}
+			c, ok := as.Rhs[0].(*ast.CallExpr)
+			if !ok {
+				return true
+			}
+			if fn := staticCallee(info, c); fn == nil || fn.Pkg() == nil || fn.Pkg().Path() != "slices" || !strings.HasPrefix(fn.Name(), "BinarySearch") {
+				return true
+			}
+			iID, _ := as.Lhs[0].(*ast.Ident)
+			okID, _ := as.Lhs[1].(*ast.Ident)
+			if iID == nil || okID == nil || iID.Name == "_" {
+				return true
+			}
+			iObj, okObj := info.Defs[iID], info.Defs[okID]
+			if iObj == nil || okObj == nil {
+				return true
+			}
+			isNotOK := func(e ast.Expr) bool {
+				u, ok := e.(*ast.UnaryExpr)
+				if !ok || u.Op != token.NOT {
+					return false
+				}
+				id, ok := u.X.(*ast.Ident)
+				return ok && info.Uses[id] == okObj
+			}
+			isOK := func(e ast.Expr) bool {
+				id, ok := e.(*ast.Ident)
+				return ok && info.Uses[id] == okObj
+			}
+			leaves := func(list []ast.Stmt) bool {
+				if len(list) == 0 {
+					return false
+				}
+				switch x := list[len(list)-1].(type) {
+				case *ast.ReturnStmt:
+					return true
+				case *ast.BranchStmt:
+					return x.Tok == token.CONTINUE || x.Tok == token.BREAK
+				}
+				return false
+			}
+			ast.Inspect(f.Decl.Body, func(m ast.Node) bool {
+				id, ok := m.(*ast.Ident)
+				if !ok || info.Uses[id] != iObj {
+					return true
+				}
+				n++
+				guarded := false
+				for cur := ast.Node(id); cur != nil && !guarded; cur = parents[cur] {
+					p := parents[cur]
+					if is, ok := p.(*ast.IfStmt); ok && is.Body == cur && isOK(is.Cond) {
+						guarded = true
+					}
+					if blk, ok := p.(*ast.BlockStmt); ok {
+						for _, st := range blk.List {
+							if st == cur {
+								break
+							}
+							if is, ok := st.(*ast.IfStmt); ok && is.Else == nil && is.Pos() > as.Pos() && isNotOK(is.Cond) && leaves(is.Body.List) {
+								guarded = true
+							}
+						}
+					}
+					if cc, ok := p.(*ast.CaseClause); ok {
+						for _, st := range cc.Body {
+							if st == cur {
+								break
+							}
+							if is, ok := st.(*ast.IfStmt); ok && is.Else == nil && is.Pos() > as.Pos() && isNotOK(is.Cond) && leaves(is.Body.List) {
+								guarded = true
+							}
+						}
+					}
+				}
+				r.Ob("L-found", fmt.Sprintf("%s :: %s is used only after a successful search", f.Name, iID.Name), prog.Pos(id.Pos()), guarded,
+					"the position returned by slices.BinarySearch is used on a path where the search may have failed: for a tag that is not in the table it is an insertion position (another tag's entry, or one past the end)")
+				return true
+			})
+			return true
+		})
+	}
+	return n
 }
